@@ -582,3 +582,105 @@ func c15Values(r *core.Run) {
 		}
 	}
 }
+
+// c15SharedTranspose: "a mask stays attached to its elements through physical transposition" seen from the OTHER tensor:
+// a root and a view of it share storage and mask; after one of them is physically transposed (the data moves in the
+// shared storage), the set of (value, masked) pairs read through the other one is still the original one - every value
+// that was masked still is, wherever it now sits.
+func c15SharedTranspose(r *core.Run) {
+	shapes := [][]int{{2, 3}, {3, 2}, {2, 2}, {2, 3, 2}}
+	r.SetBound("shared_mask_physical_transposition", fmt.Sprintf("shapes %v x every mask (<= 6 elements; 32 patterns above) x view {whole, leading rows} x which one is physically transposed {root, view} x {float64, string}", shapes))
+	for _, d := range []ref.DT{ref.Float64, ref.String} {
+		for _, shape := range shapes {
+			n := ref.Prod(shape)
+			var masks []int
+			if n <= 6 {
+				for m := 0; m < 1<<uint(n); m++ {
+					masks = append(masks, m)
+				}
+			} else {
+				for k := 0; k < 32; k++ {
+					masks = append(masks, (k*0x9d)&(1<<uint(n)-1))
+				}
+			}
+			for _, vk := range []string{"whole", "rows"} {
+				for _, who := range []string{"root", "view"} {
+					if !r.Take() {
+						continue
+					}
+					for _, mb := range masks {
+						d, shape, vk, who, mb := d, shape, vk, who, mb
+						id := fmt.Sprintf("C15|shared-transpose|%s|%s|%s|%s|mask=%0*b", d.Name, shapeStr(shape), vk, who, n, mb)
+						if r.ReplayCase != "" && id != r.ReplayCase {
+							continue
+						}
+						r.Case(id, true, func() *core.Fail {
+							tensor.VerifResetPools()
+							back := d.MakeSlice(n)
+							mask := make([]bool, n)
+							maskedVal := map[string]bool{}
+							for i := 0; i < n; i++ {
+								ref.SliceSet(back, i, d.Code(i+1))
+								mask[i] = mb&(1<<uint(i)) != 0
+								maskedVal[ref.Fmt(d.Code(i+1))] = mask[i]
+							}
+							root := tensor.New(tensor.WithShape(shape...), tensor.WithBacking(back, append([]bool{}, mask...)))
+							var v *tensor.Dense
+							var err error
+							var sv tensor.View
+							if vk == "whole" {
+								sv, err = root.Slice(nil)
+							} else {
+								if shape[0] < 2 {
+									return nil
+								}
+								sv, err = root.Slice(tensor.S(0, shape[0]))
+							}
+							if err != nil {
+								return nil
+							}
+							v = sv.(*tensor.Dense)
+							mover, other := root, v
+							if who == "view" {
+								mover, other = v, root
+							}
+							if o := call(func() error {
+								if e := mover.T(); e != nil {
+									return e
+								}
+								return mover.Transpose()
+							}); o.Class != "ok" {
+								return nil // C03/C04 judge refusals of transposition
+							}
+							r.Op(1)
+							// read every element through the OTHER tensor (its pattern is the old one; the data has moved under it)
+							var fail *core.Fail
+							seen := 0
+							ref.ForCoords(other.Shape(), func(c []int) {
+								if fail != nil {
+									return
+								}
+								var val interface{}
+								var m bool
+								var e1, e2 error
+								if o := call(func() error { val, e1 = other.At(c...); m, e2 = other.MaskAt(c...); return nil }); o.Class != "ok" || e1 != nil || e2 != nil {
+									fail = core.F("wrong-mask", "unreadable", "after the physical transposition of the %s, At/MaskAt(%v) on the other tensor failed: %v %v %s", who, c, e1, e2, o)
+									return
+								}
+								want, known := maskedVal[ref.Fmt(val)]
+								if !known {
+									return // the element was overwritten (C04's recorded finding for views): not this check's subject
+								}
+								seen++
+								if m != want {
+									fail = core.F("wrong-mask", fmt.Sprintf("v%s", ref.Fmt(val)), "root %v %s mask %s, view %s; after the physical transposition of the %s the other tensor reads value %s at %v as masked=%v, it was %v: the mask did not move with the elements for the tensor that shares it", shape, d.Name, bitsOf(mask), vk, who, ref.Fmt(val), c, m, want)
+								}
+							})
+							return fail
+						})
+					}
+				}
+			}
+		}
+	}
+}
